@@ -340,6 +340,7 @@ func runC05(c *Ctx) {
 	}
 	served := p.KG().ReachLive(roots, nil)
 	n4 := 0
+	judged4 := map[*ssa.Function]bool{}
 	for _, fn := range p.KetoFuncs("internal/relationtuple") {
 		if !served.Has(fn) {
 			continue
@@ -354,6 +355,7 @@ func runC05(c *Ctx) {
 				return
 			}
 			n4++
+			judged4[core.Outermost(fn)] = true
 			etx := enclosingTx(fn, tx)
 			// the FromTuple call that feeds it
 			sameLit := false
@@ -369,8 +371,20 @@ func runC05(c *Ctx) {
 				"the mapping and the storage write are not in one Transaction literal: a failure of the write leaves the mapping rows, or of a later tuple leaves earlier ones")
 		})
 	}
-	if n4 < 3 {
-		r.Undecide("R05.4", "", "write handler storage calls", "", fmt.Sprintf("%d found, floor 3", n4))
+	// floor: every write entry reaches a storage call judged above (its own, or that of a helper
+	// the handlers share)
+	hits := 0
+	for _, root := range roots {
+		reach := p.KG().ReachLive([]*ssa.Function{root}, nil)
+		for f := range judged4 {
+			if reach.Has(f) {
+				hits++
+				break
+			}
+		}
+	}
+	if n4 < 1 || hits < 3 {
+		r.Undecide("R05.4", "", "write handler storage calls", "", fmt.Sprintf("%d storage calls judged, reached by %d of the %d write entries (floor 1 and 3: create, patch, transact)", n4, hits, len(roots)))
 	}
 
 	// R05.5 several write operations in one function => one literal
